@@ -434,4 +434,16 @@ def N21():  # --tag-rename v:v wrote `refs/tags/v1 refs/tags/v1` into ref-map
         shutil.rmtree(root, ignore_errors=True)
 
 
+def N22():  # a tag that points at another tag: a no-option run turns it into a tag of the commit (new object id)
+    root, repo = new_repo()
+    try:
+        commit(repo, {'a': 'a'}, 'one')
+        sh(repo, 'git -c advice.nestedTag=false tag -a -m inner inner HEAD; git -c advice.nestedTag=false tag -a -m outer outer inner')
+        before = e2e.refs(repo)
+        rc, _, _ = tool(repo, '--force')
+        return rc != 0 or e2e.refs(repo) != before
+    finally:
+        shutil.rmtree(root, ignore_errors=True)
+
+
 RECIPES = {k: v for k, v in list(globals().items()) if callable(v) and k[0] in 'FNR' and k[1:].isdigit()}
